@@ -100,28 +100,32 @@ C04(x, r, ze, exact) == \A i \in NodesOf(x) : C04Node(x, r, ze, exact, i)
 (* neighbours.  pc is the slope exponent times 4.                            *)
 IsSquare(q) == \E s \in 1..64 : s * s = q
 Root(q) == CHOOSE s \in 1..64 : s * s = q
-C05Node(x, r, ze, exact, pc, i) ==
-  IF Msk(x, i) \/ i \in x.bl THEN SelfOnly(r, i)
-  ELSE LET L == LowerEntries(x, ze, i) IN
-       IF L = <<>> THEN SelfOnly(r, i)
-       ELSE LET R == RecSeq(r, i)
-                ent == [k \in DOMAIN R |-> [j |-> R[k], dsq |-> At(r.dq, i)[k]]]
-                W == [k \in DOMAIN R |-> At(r.wq, i)[k] \div 16]     \* Q(16), error < 2 units
-            IN /\ At(r.nrec, i) = Len(L) /\ Len(R) = Len(L)
-               /\ BagOfSeq(ent) = BagOfSeq(L)
-               /\ \A k \in DOMAIN R : At(r.wc, i)[k] = 0 /\ At(r.wq, i)[k] >= 0
-               /\ Abs(SumSeq(At(r.wq, i)) - 1048576) <= Len(R)
-               /\ (exact /\ pc = 0) => \A k \in DOMAIN R : Abs(At(r.wq, i)[k] - At(r.wq, i)[1]) <= 1
-               /\ (exact /\ pc = 8) => \A k, m \in DOMAIN R :
-                     LET dk == At(r.zm, i) - At(r.zm, R[k])   dm == At(r.zm, i) - At(r.zm, R[m])
-                         X == dm * dm * ent[k].dsq            Y == dk * dk * ent[m].dsq
-                     IN (X < 16384 /\ Y < 16384) => Abs(W[k] * X - W[m] * Y) <= 2 * (X + Y) + 2
-               /\ (exact /\ pc = 4) => \A k, m \in DOMAIN R :
-                     (IsSquare(ent[k].dsq) /\ IsSquare(ent[m].dsq)) =>
-                     LET dk == At(r.zm, i) - At(r.zm, R[k])   dm == At(r.zm, i) - At(r.zm, R[m])
-                         X == dm * Root(ent[k].dsq)            Y == dk * Root(ent[m].dsq)
-                     IN (X < 16384 /\ Y < 16384) => Abs(W[k] * X - W[m] * Y) <= 2 * (X + Y) + 2
-C05(x, r, ze, exact, pc) == \A i \in NodesOf(x) : C05Node(x, r, ze, exact, pc, i)
+\* routed nodes (non-terminal with at least one strictly lower unmasked neighbour)
+C05Routed(x, ze) == {i \in NodesOf(x) : ~Msk(x, i) /\ i \notin x.bl /\ LowerEntries(x, ze, i) # <<>>}
+C05Ent(r, i) == [k \in DOMAIN RecSeq(r, i) |-> [j |-> RecSeq(r, i)[k], dsq |-> At(r.dq, i)[k]]]
+C05Terminals(x, r, ze) == \A i \in NodesOf(x) \ C05Routed(x, ze) : SelfOnly(r, i)
+C05Receivers(x, r, ze) == \A i \in C05Routed(x, ze) :
+   LET L == LowerEntries(x, ze, i) IN
+   /\ At(r.nrec, i) = Len(L) /\ Len(RecSeq(r, i)) = Len(L)
+   /\ BagOfSeq(C05Ent(r, i)) = BagOfSeq(L)
+C05Finite(x, r, ze) == \A i \in C05Routed(x, ze) :
+   \A k \in DOMAIN RecSeq(r, i) : At(r.wc, i)[k] = 0 /\ At(r.wq, i)[k] >= 0
+C05SumToOne(x, r, ze) == \A i \in C05Routed(x, ze) :
+   Abs(SumSeq(At(r.wq, i)) - 1048576) <= Len(RecSeq(r, i))
+C05Proportional(x, r, ze, pc) == \A i \in C05Routed(x, ze) :
+   LET R == RecSeq(r, i)
+       ent == C05Ent(r, i)
+       W == [k \in DOMAIN R |-> At(r.wq, i)[k] \div 16]     \* Q(16), error < 2 units
+   IN /\ pc = 0 => \A k \in DOMAIN R : Abs(At(r.wq, i)[k] - At(r.wq, i)[1]) <= 1
+      /\ pc = 8 => \A k, m \in DOMAIN R :
+            LET dk == At(r.zm, i) - At(r.zm, R[k])   dm == At(r.zm, i) - At(r.zm, R[m])
+                X == dm * dm * ent[k].dsq            Y == dk * dk * ent[m].dsq
+            IN (dk < 100 /\ dm < 100 /\ X < 16384 /\ Y < 16384) => Abs(W[k] * X - W[m] * Y) <= 2 * (X + Y) + 2
+      /\ pc = 4 => \A k, m \in DOMAIN R :
+            (IsSquare(ent[k].dsq) /\ IsSquare(ent[m].dsq)) =>
+            LET dk == At(r.zm, i) - At(r.zm, R[k])   dm == At(r.zm, i) - At(r.zm, R[m])
+                X == dm * Root(ent[k].dsq)            Y == dk * Root(ent[m].dsq)
+            IN (dk < 1000 /\ dm < 1000 /\ X < 16384 /\ Y < 16384) => Abs(W[k] * X - W[m] * Y) <= 2 * (X + Y) + 2
 
 -----------------------------------------------------------------------------
 (* C06 - tables and traversal orders are mutually consistent.                *)
